@@ -42,11 +42,10 @@ structure Entry where
   writers : List String     -- functions that syntactically assign the cell (outside its own initialiser)
   deriving DecidableEq, Repr
 
-/-- Committed inventory of the pinned tree (sorted by name, as the scanner emits it). -/
+/-- Committed inventory of the tree (sorted by name, as the scanner emits it).  No cell is `writtenByConst`. -/
 def expectedInventory : List Entry := [
   ⟨"BSpline::operator()::Bum", .localStatic, true, .onceInit, []⟩,
   ⟨"MinimizeOptions::strat", .pointerMember, false, .perObject, ["minimize"]⟩,
-  ⟨"SubManifold::m_calc", .mutableMember, false, .writtenByConst, ["SubManifold::rplus", "SubManifold::rminus"]⟩,
   ⟨"ad_sparse_pattern", .varTemplate, false, .readOnlyAfterInit, []⟩,
   ⟨"d2_exp_sparse_pattern", .varTemplate, false, .readOnlyAfterInit, []⟩,
   ⟨"d_exp_sparse_pattern", .varTemplate, false, .readOnlyAfterInit, []⟩,
@@ -63,9 +62,10 @@ def expectedInventory : List Entry := [
   ⟨"traits::lie_sparse<G>[(std::is_base_of_v<SE3Base<G>,G>)]::d_exp_sparse_pattern", .classStatic, false, .readOnlyAfterInit, []⟩
 ]
 
-/-- Cells of `expectedInventory` that are genuine defects of the unchanged tree (reported by the check
-    as findings with key `{kind: shared-write, cell: …}`; listed in /verif/known_findings.jsonl). -/
-def knownFindings : List String := ["SubManifold::m_calc"]
+/-- Cells of the inventory that are recorded defects of the tree (reported by the check as findings with key
+    `{kind: shared-write, cell: …}`).  EMPTY: `SubManifold::m_calc` (mutable scratch written by the const
+    `rplus` / `rminus`) was repaired in /repo by commit 34c8743 and is recorded as `fixed`. -/
+def knownFindings : List String := []
 
 /-! ### the const operation induced by an inventory -/
 
